@@ -7,6 +7,11 @@ Oracle on the implementation: generated bodies attached to generated interfaces;
   argparse : same with emit.argparse_function / parse.argparse_ast;
   class    : emit.class_(ir + body, emit_call=True): the body of __call__ compared with an independent,
              scope-aware re-homing of the body (exactly the references to parameters become self.<name>).
+  fromsrc  : a function / method written as SOURCE TEXT (signature, a docstring of any shape - absent, ordinary, empty,
+             blank, raw/concatenated/parenthesised literal, or a leading expression that is not a docstring - then a
+             generated body) -> parse.function -> emit.function (same name, type) and -> emit.class_(emit_call=True);
+             the statements after the docstring (judged independently: first statement is an `Expr` of a `str`
+             constant) must come back exactly, resp. as their scope-aware re-homing.
 Each failure is classified by the extracted Coq functions of coq/model/C16Spec.v."""
 import ast
 import collections
@@ -183,10 +188,77 @@ def dump(l):
     return [ast.dump(s) for s in l]
 
 
+# ------------------------------------------------------------------ functions written as source text
+# docstring shapes, as the source text of the first statement
+DOC_ORDINARY = ['"""Summary line."""', "'doc'", '"""\n    Does things.\n\n    More text here.\n    """']
+DOC_DEGENERATE = ['""""""', '""" """', "''", '""', "' '", "'   '", '"\\t"', '"""\n    """', '"""\n\n    """', '"""\n"""',
+                  "'\\n'", '" \\n "', 'r""', "u''", 'R"""   """', '"" ""', "'' \"\"", '("")', "('' '')", "'''\n    \n    '''"]
+DOC_NOT_A_DOCSTRING = ["b''", "b'doc'", "f''", "f'{q}'", "None", "...", "0", "fn_", "('', )", "''.strip()", "'' or None"]
+SRC_ANNS = ["int", "str", "float", "bool", "Optional[int]", "List[str]"]
+SRC_DEFAULTS = ["5", "0", "-1", "2.5", "'mnist'", "None", "True", "False"]
+
+
+def is_docstring_stmt(stmt):
+    """the independent judge of `this first statement is the docstring`"""
+    return isinstance(stmt, ast.Expr) and isinstance(stmt.value, ast.Constant) and isinstance(stmt.value.value, str)
+
+
+def gen_src_case(rng):
+    """one function definition as source text: function type x parameters x docstring shape x generated body"""
+    import gen_text as G
+    ft = rng.choice(["static", "static", "self", "cls"])
+    pn = []
+    for _ in range(rng.choice([0, 1, 2, 2, 3])):
+        name = G.ident(rng)
+        if name not in pn:
+            pn.append(name)
+    ndef = rng.randint(0, len(pn))
+    parts = [] if ft == "static" else [ft]
+    for i, name in enumerate(pn):
+        part = name
+        if rng.random() < 0.4:
+            part += ": " + rng.choice(SRC_ANNS)
+        if i >= len(pn) - ndef:
+            part += (" = " if ":" in part else "=") + rng.choice(SRC_DEFAULTS)
+        parts.append(part)
+    r = rng.random()
+    if r < 0.12:
+        dk, doc = "absent", None
+    elif r < 0.30:
+        dk, doc = "ordinary", rng.choice(DOC_ORDINARY)
+        if pn and rng.random() < 0.6:
+            fields = []
+            for n_ in pn:
+                fields.append("    :param %s: %s" % (n_, G.clean_prose(rng)))
+                if rng.random() < 0.6:
+                    fields.append("    :type %s: ```%s```" % (n_, rng.choice(SRC_ANNS)))
+                fields.append("")
+            doc = '"""\n    Summary line.\n\n' + "\n".join(fields) + '\n    """'
+    elif r < 0.88:
+        dk, doc = "degenerate", rng.choice(DOC_DEGENERATE)
+    else:
+        dk, doc = "not-a-docstring", rng.choice(DOC_NOT_A_DOCSTRING)
+    body_src = fam_emitast.gen_body_src(rng, pn, allow_opaque_params=rng.random() < 0.25, kind="function")
+    if rng.random() < 0.1:
+        # stubs: a docstring and next to nothing
+        body_src = rng.choice(["pass", "return", "return 5", "return %s" % (pn[0] if pn else "q"), "''", "'doc'", "...",
+                               "raise NotImplementedError()"])
+    name = rng.choice(["f", "g", "train", "run"])
+    text = ("" if doc is None else "    " + doc + "\n") + "".join("    " + l + "\n" for l in body_src.split("\n"))
+    src = "def %s(%s):\n%s" % (name, ", ".join(parts), text)
+    ast.parse(src)
+    o = {"function_type": ft, "inline_types": rng.random() < 0.5, "emit_as_kwonlyargs": rng.random() < 0.5,
+         "emit_default_doc": rng.random() < 0.5, "word_wrap": rng.random() < 0.5}
+    return {"kind": "fromsrc", "ir": None, "src": src, "body_src": body_src, "doc_kind": dk, "opts": o, "tags": ["doc:" + dk]}
+
+
 # ------------------------------------------------------------------ cases
 def gen_cases(rng, n):
     cases = []
     for _ in range(n):
+        if rng.random() < 0.2:
+            cases.append(gen_src_case(rng))
+            continue
         kind = rng.choice(["function", "function", "argparse", "class"])
         ir, tags = gen_ir.gen_ir(rng, clean=rng.random() < 0.5)
         ir = {"name": "f", "type": "static", "doc": ir["doc"],
@@ -235,6 +307,8 @@ def evaluate(case):
     """-> list of (ok, what, classify-request or None, skipped-reason or None)"""
     m = impl()
     kind, o = case["kind"], case["opts"]
+    if kind == "fromsrc":
+        return evaluate_fromsrc(case)
     body = ast.parse(case["body_src"]).body
     res = []
     try:
@@ -293,6 +367,54 @@ def evaluate(case):
     return res
 
 
+def evaluate_fromsrc(case):
+    """a function written as source text -> parse.function -> emit.function / emit.class_(emit_call=True)"""
+    m = impl()
+    o = case["opts"]
+    fun = ast.parse(case["src"]).body[0]
+    impl_body = fun.body[1:] if is_docstring_stmt(fun.body[0]) else list(fun.body)    # everything after the docstring
+    ft = o["function_type"]
+    res = []
+    try:
+        ir = m.parse.function(copy.deepcopy(fun))
+    except Exception as e:  # noqa  parse failing is C03/C04's clause
+        return [(True, "", None, "parse raised %s" % type(e).__name__)]
+    try:
+        kw = dict(word_wrap=o["word_wrap"], emit_default_doc=o["emit_default_doc"], inline_types=o["inline_types"],
+                  emit_as_kwonlyargs=o["emit_as_kwonlyargs"])
+        f2 = m.emit.function(copy.deepcopy(ir), fun.name, ft, **kw)
+        d2 = ((ir.get("returns") or {}).get("return_type") or {}).get("default")
+        rv2 = f2.body[-1] if d2 else None
+        req = dumps([Sym("c16_class_function"), [astwire.enc_stmt(s) for s in impl_body], opt(rv2, astwire.enc_stmt)])
+        got = f2.body[1:] if f2.body and is_docstring_stmt(f2.body[0]) else f2.body
+        ok = dump(got) == dump(impl_body)
+        res.append((ok, "" if ok else "source function -> parse.function -> emit.function: the %d statements after the docstring "
+                    "came back as %d statements: %s" % (len(impl_body), len(got), [ast.unparse(s) for s in got][:6]), req, None))
+    except Exception as e:  # noqa
+        res.append((True, "", None, "raised %s" % type(e).__name__))
+    try:
+        pn = list(ir["params"])
+        c1 = m.emit.class_(copy.deepcopy(ir), emit_call=True, class_name="C", word_wrap=o["word_wrap"],
+                           emit_default_doc=o["emit_default_doc"])
+        call = [s for s in c1.body if isinstance(s, ast.FunctionDef) and s.name == "__call__"]
+        req = dumps([Sym("c16_class_call"), pn, [astwire.enc_stmt(s) for s in impl_body]]) if pn else None
+        if not impl_body:
+            ok = not call
+            res.append((ok, "" if ok else "source function with nothing after its docstring: a __call__ was emitted: %s"
+                        % ast.unparse(call[0]), None, None))
+        elif not call:
+            res.append((False, "source function -> class: no __call__ emitted", req, None))
+        else:
+            want = expected_rehome(impl_body, pn) if pn else impl_body
+            ok = dump(call[0].body) == dump(want)
+            res.append((ok, "" if ok else "source function -> class: __call__ body (%d statements) is not the scope-aware re-homing "
+                        "of the %d statements after the docstring: %s"
+                        % (len(call[0].body), len(impl_body), [ast.unparse(s) for s in call[0].body][:6]), req, None))
+    except Exception as e:  # noqa
+        res.append((True, "", None, "raised %s" % type(e).__name__))
+    return res
+
+
 def check_case(case):
     for ok, what, _req, _skip in evaluate(case):
         if not ok:
@@ -323,7 +445,9 @@ def oracle(rng, tier):
             continue
         if ok:
             hist["holds:" + c["kind"]] += 1
-            seen.add((c["kind"], c["body_src"]))
+            if c["kind"] == "fromsrc":
+                hist["holds:fromsrc:doc-" + c["doc_kind"]] += 1
+            seen.add((c["kind"], c.get("src") or c["body_src"]))
             continue
         cls = cls_of.get(idx)
         if cls and cls.endswith("unmodelled"):
@@ -333,14 +457,19 @@ def oracle(rng, tier):
         kept[(c["kind"], cls)] += 1
         if cls is not None and kept[(c["kind"], cls)] > 25:
             continue
-        failures.append({"case": {k: c[k] for k in ("kind", "ir", "body_src", "opts")}, "what": what, "class": cls})
+        failures.append({"case": {k: c[k] for k in ("kind", "ir", "body_src", "opts", "src", "doc_kind") if k in c},
+                         "what": what, "class": cls})
     return {
         "evaluations": len(evals),
         "distinct_nontrivial": len(seen),
         "rule": "generated bodies (assignments, calls with keyword arguments named like parameters, loops, conditionals with "
                 "early returns, nested functions, comprehensions) x generated interfaces x {function, argparse, class __call__}; "
+                "plus functions/methods written as source text with a docstring of every shape (absent, ordinary, empty, blank, "
+                "raw/concatenated/parenthesised literal, leading non-docstring expression) -> parse.function -> "
+                "{emit.function, class __call__}; "
                 "non-trivial = distinct (kind, body) on which the clause holds; conversions that raise are not evaluated here",
         "failures": failures,
         "histogram": dict(hist),
-        "samples": [{k: c[k] for k in ("kind", "body_src")} for c in cases[:5]],
+        "samples": [{k: c[k] for k in ("kind", "body_src")} for c in cases[:5]] +
+                   [{k: c[k] for k in ("kind", "src")} for c in cases if c["kind"] == "fromsrc"][:3],
     }
